@@ -27,7 +27,7 @@ table = '| seed | file | what it breaks and what it needs | quick tier verdict |
 s = open('/verif/DESIGN.md').read()
 b, e = '<!-- SEEDED-TABLE-BEGIN -->', '<!-- SEEDED-TABLE-END -->'
 if b not in s:
-    s += '\n### 12.5 Independently seeded changes (`seeded/<id>/`: patch.diff, demo_test.go, notes.txt, meta.json)\n\nEach change was written by a fresh sub-agent that saw only the property text and a scratch worktree; the lead confirmed (seedtest.py) that it compiles, that the 39-test baseline still passes, that its demonstration passes on the unchanged tree and fails with the change, and then ran the property\'s quick tier against it.\n\n' + b + '\n' + e + '\n'
+    s += '\n### 12.6 Independently seeded changes (`seeded/<id>/`: patch.diff, demo_test.go, notes.txt, meta.json)\n\nEach change was written by a fresh sub-agent that saw only the property text and a scratch worktree; the lead confirmed (seedtest.py) that it compiles, that the 39-test baseline still passes, that its demonstration passes on the unchanged tree and fails with the change, and then ran the property\'s quick tier against it.\n\n' + b + '\n' + e + '\n'
 s = s[:s.index(b) + len(b)] + '\n' + table + s[s.index(e):]
 open('/verif/DESIGN.md', 'w').write(s)
 print(len(rows), 'rows')
